@@ -47,6 +47,11 @@ BOUND_EVENTS = ['start:qa', 'start:q', 'start:ra', 'step:1', 'step:2', 'close:1'
 EMPTY_EVENTS = ['start:rX', 'step:1', 'assertz', 'retractall_all', 'retract_c', 'retract_b', 'retract_other']
 
 
+# a fifth alphabet: the goal of a suspended retract arrived in a VARIABLE whose binding ends (release) or is
+# replaced by another goal (rebind) while the retract is suspended: the retract goes on with the goal it was given
+GOALVAR_EVENTS = ['startv:rX', 'startv:ra', 'step:1', 'step:2', 'close:1', 'release:1', 'rebind:1', 'assertz', 'retract_b']
+
+
 def bounds(tier):
     return {'history_depth': 5 if tier == 'quick' else 6, 'body_goals': 3 if tier == 'quick' else 4,
             'state_search_depth': 0 if tier == 'quick' else 9}
@@ -62,30 +67,43 @@ class Run:
             w.assert_fact(F('p', t))
         self.nvar = 0
         self.overlap = False
+        self.viavar = set()
 
     def enabled(self, ev):
         kind, _, arg = ev.partition(':')
-        if kind == 'start':
+        if kind in ('start', 'startv'):
             return self.slots[1] is None or self.slots[2] is None
         if kind in ('step', 'close'):
             return self.slots[int(arg)] is not None
+        if kind in ('release', 'rebind'):
+            return self.slots[int(arg)] is not None and int(arg) in self.viavar
         return True
 
     def do(self, ev):
         w = self.w
         kind, _, arg = ev.partition(':')
-        if kind == 'start':
+        if kind in ('start', 'startv'):
             k = 1 if self.slots[1] is None else 2
             self.nvar += 1
             v = V('E%d' % self.nvar)
             goal = STARTS[arg]
             # rename X to a variable private to this enumeration
             goal = _subst(goal, v)
-            h = w.start(goal)
+            h = w.start(goal) if kind == 'start' else w.start_via_variable(goal)
+            self.viavar.discard(k)
             if w.step(h):
                 self.slots[k] = (h, v, arg)
+                if kind == 'startv':
+                    self.viavar.add(k)
                 return ('started', k, w.observe([v], h))
+            if kind == 'startv':
+                w.close(h)
             return ('started-empty', k)
+        if kind in ('release', 'rebind'):
+            k = int(arg)
+            h, v, _ = self.slots[k]
+            w.release(h, rebind=(kind == 'rebind'))
+            return ('goal-variable-' + kind, k, w.observe([v], h))
         if kind == 'step':
             k = int(arg)
             h, v, _ = self.slots[k]
@@ -259,6 +277,7 @@ def run_shard(spec):
         # a store in which one fact is p(_): using it binds (a renamed copy of) its variable
         work += [(3 * 10 ** 7 + idx, hist, 5) for idx, hist in enumerate(itertools.product(EVENTS, repeat=depth - 1)) if idx % n == k]
         work += [(5 * 10 ** 7 + idx, hist, 6) for idx, hist in enumerate(itertools.product(EVENTS, repeat=depth - 1)) if idx % n == k]
+        work += [(6 * 10 ** 7 + idx, hist, 3) for idx, hist in enumerate(itertools.product(GOALVAR_EVENTS, repeat=depth - 1)) if idx % n == k]
         for idx, hist, ii in work:
             init = INITIAL[ii]
             if True:
